@@ -92,7 +92,7 @@ func init() {
 		assumptions: []string{"sha256"},
 	})
 	register("C16", &propDef{
-		patterns: []string{"./embedded/store", "./embedded/appendable/...", "./embedded/tbtree", "./embedded/sql", "./pkg/api/schema", "./pkg/pgsql/server/...", "./pkg/stream"},
+		patterns: []string{"./embedded/store", "./embedded/appendable/...", "./embedded/tbtree", "./embedded/sql", "./pkg/api/schema", "./pkg/pgsql/server/...", "./pkg/stream", "./pkg/database", "./embedded/ahtree"},
 		run:      c16,
 		explanation: "Decides, for a frozen list of decoders of untrusted or possibly corrupted bytes, that every slice expression, index, fixed-size big-endian read and length-driven allocation is within bounds on every path: each obligation (a linear inequality over SSA values and slice lengths) is discharged from the branch conditions that dominate the access (plus stated callee contracts, themselves checked on every implementation, and an induction step over loop cursors); explicit panics in decoders are violations. It does NOT decide termination/time bounds nor the generated SQL parser's recursion depth.",
 		assumptions: []string{"integer overflow of cursor arithmetic is out of scope (lengths are bounded by buffer sizes)"},
@@ -103,4 +103,9 @@ func init() {
 		explanation: "Decides structural agreement clauses of the codecs: sibling encoders/decoders perform the same sequence of fixed-width field operations; the SQL key and value codecs handle the same set of types on both sides (indexable types are storable; the only storable type without a key encoding is documented); length limits are compared with the same operator on the writing and the reading side; Timestamp values are normalised to microseconds wherever they enter the engine (the key codec encodes nanoseconds, the value codec microseconds); metadata proto conversions carry every attribute. It does NOT decide round-trip equality or order preservation for all values.",
 		assumptions: []string{"codecs are written in the straight-line cursor style (source order = wire order)"},
 	})
+}
+
+// props0: the quick-tier package patterns of a registered property (debug registrations reuse them)
+func props0(id string) []string {
+	return []string{"./embedded/store", "./embedded/appendable/...", "./embedded/tbtree", "./embedded/ahtree", "./embedded/sql", "./pkg/api/schema", "./pkg/pgsql/server/...", "./pkg/stream", "./pkg/database", "./pkg/server", "./pkg/replication"}
 }
